@@ -13,6 +13,6 @@ P = {
     ],
     "tiers": tiers(
         quick=[{"name": "rand", "mode": "run", "count": 40000, "max_size": 100, "shards": 16}],
-        thorough=[{"name": "rand", "mode": "run", "count": 400000, "max_size": 100, "shards": 16, "max_seconds": 1500}],
+        thorough=[{"name": "rand", "mode": "run", "count": 3000000, "max_size": 100, "shards": 16, "max_seconds": 1200}],
     ),
 }
